@@ -127,6 +127,20 @@ def translate_all(ctx):
         if "header" in T:
             lean_emit.emit_decode(T["decode"], T["header"], "Rspirv.Generated.Decode", f"{GEN}/Decode.lean",
                                   "from rspirv/binary/autogen_decode_operand.rs")
+    from translate import operand as operand_tr, parse_operand
+    attempt("operand_enum", lambda: operand_tr.parse_enum(read(f"{REPO}/rspirv/dr/autogen_operand.rs"))[0])
+    attempt("asm_arms", lambda: operand_tr.parse_assemble_arms(read(f"{REPO}/rspirv/binary/assemble.rs")))
+    attempt("parse_operand", lambda: parse_operand.parse(read(f"{REPO}/rspirv/binary/autogen_parse_operand.rs")))
+    if "operand_enum" in T and "header" in T:
+        glue_gen.gen_operand_full(T["operand_enum"], T["header"], f"{HARNESS}/src/glue_operand.rs")
+    if all(k in T for k in ("operand_enum", "asm_arms", "parse_operand", "decode", "header", "core")):
+        try:
+            lean_emit.emit_operands(T, "Rspirv.Generated.Operands", f"{GEN}/Operands.lean",
+                                    "from dr/autogen_operand.rs, binary/assemble.rs, binary/autogen_parse_operand.rs")
+        except TranslateError as e:
+            fails["operands"] = e
+        except (KeyError, StopIteration) as e:
+            fails["operands"] = TranslateError("rspirv/binary/autogen_parse_operand.rs", "name resolution", f"unknown name {e}")
     ctx.data["T"] = T
     ctx.data["translate_fails"] = fails
     if "header" in T:
